@@ -1,12 +1,13 @@
 #!/bin/sh
 # developer helper: apply every kept behaviour-preserving change set (benign/*/patch.diff) to a scratch worktree and run the quick checks against it (GLM_REPO override);
 # any "!!" line is a false alarm (VIOLATION) or an analysis that a harmless refactor breaks (exit 2).   usage: tools/all_benign.sh [property ids ...]
-cd /verif
-wt=/tmp/mut/benign_wt
+V=$(cd "$(dirname "$0")/.." && pwd)
+cd $V
+wt=/tmp/mut/benign_wt_$$
 for d in benign/*/; do
   id=$(basename $d)
   rm -rf $wt; git -C /repo worktree prune; git -C /repo worktree add --detach $wt HEAD >/dev/null 2>&1 || { echo "cannot create worktree"; exit 2; }
-  if ( cd $wt && git apply /verif/$d/patch.diff ); then
+  if ( cd $wt && git apply $V/$d/patch.diff ); then
     echo "######## $id"
     SHOW=4 tools/try_benign.sh $wt "$@" | grep -v "^ok "
   else
